@@ -162,4 +162,43 @@ def excludeBy (ex : String → Bool) (s : Kvs) : Kvs :=
 /-- `schema["properties"].pop(name, None)` / `schema["required"].remove(name)` for every excluded name -/
 def excludeNames (names : List String) (s : Kvs) : Kvs := excludeBy (fun n => names.contains n) s
 
+/-! ## the generation settings a cached strategy is built from -/
+
+/-- what `make_positive_strategy` / `make_negative_strategy` read off the `GenerationConfig`: `allow_x00`, `codec`, the
+    custom header strategy (an object, by identity) -/
+structure GenSettings where
+  allowX00 : Bool
+  codec : Option String
+  headerStrategy : Option Nat
+  deriving DecidableEq, Repr
+
+inductive KeyVariant where
+  | asFound     -- the settings are not part of the cache keys
+  | repaired    -- `(…, allow_x00, codec, headers.strategy)` (fix in /repo)
+  deriving DecidableEq, Repr
+
+/-- a request for a parameter-location strategy under given settings -/
+structure GenParamReq where
+  req : ParamReq
+  gen : GenSettings
+
+def genParamKey : KeyVariant → GenParamReq → (Factory × String × List String) × Option GenSettings
+  | .asFound, r => (paramKey r.req, none)
+  | .repaired, r => (paramKey r.req, some r.gen)
+
+/-- the strategy built on a miss, as far as the settings are concerned: for which key parts, under which settings -/
+def buildGenParam (r : GenParamReq) : (Factory × String × List String) × GenSettings := (paramKey r.req, r.gen)
+
+/-- the same for body alternatives -/
+structure GenBodyReq where
+  idx : Nat
+  factory : Factory
+  gen : GenSettings
+
+def genBodyKey : KeyVariant → GenBodyReq → (Nat × Factory) × Option GenSettings
+  | .asFound, r => ((r.idx, r.factory), none)
+  | .repaired, r => ((r.idx, r.factory), some r.gen)
+
+def buildGenBody (r : GenBodyReq) : (Nat × Factory) × GenSettings := ((r.idx, r.factory), r.gen)
+
 end SV.Model.C01Body
